@@ -356,11 +356,12 @@ func c02SavedSize(c *Ctx) {
 			if i == nil {
 				continue
 			}
-			op, _, y, ok := cmpFact(normFact(fact{V: i.Cond, Pol: true}))
-			if ok && op == token.GTR && isVar("size")(y) {
-				found = true
-				okEdge, why := failEdge(c, b, 0)
-				c.check(okEdge, name+"/step>size", c.ipos(i), "step > size cancels the transfer", "step > size edge does not fail: "+why)
+			for k := 0; k < 2; k++ {
+				if b.Succs[0] != b.Succs[1] && factCmp(edgeFactsTo(b, b.Succs[k]), token.GTR, anyValue, isVar("size")) {
+					found = true
+					okEdge, why := failEdge(c, b, k)
+					c.check(okEdge, name+"/step>size", c.ipos(i), "step > size cancels the transfer", "step > size edge does not fail: "+why)
+				}
 			}
 		}
 		if !found {
